@@ -1,9 +1,66 @@
 import Iox2.Model.Blackboard
 import Driver.Util
 namespace Driver.BlackboardD
-open Driver
+open Iox2.Blackboard Driver
 
-def stepLine (s : Unit) (_t : List String) : Unit × String := (s, "unimplemented")
+def tyTag (s : String) : Nat :=
+  if s = "a" then 0 else if s = "b" then 1 else if s = "c" then 2 else 3
 
-def comp : Comp := { σ := Unit, init := (), step := stepLine }
+def parse (t : List String) : Option Op :=
+  match t with
+  | ["cwriter", w] => some (.cwriter (nat! w))
+  | ["dwriter", w] => some (.dwriter (nat! w))
+  | ["creader", r] => some (.creader (nat! r))
+  | ["dreader", r] => some (.dreader (nat! r))
+  | ["hmut", w, k, h, ty] => some (.hmut (nat! w) (nat! k) (nat! h) (tyTag ty))
+  | ["dhmut", h] => some (.dhmut (nat! h))
+  | ["update", h, v] => some (.update (nat! h) (nat! v))
+  | ["loan", h, l] => some (.loan (nat! h) (nat! l))
+  | ["lwrite", l, v] => some (.lwrite (nat! l) (nat! v))
+  | ["lcommit", l] => some (.lcommit (nat! l))
+  | ["commit", l, v] => some (.commit (nat! l) (nat! v))
+  | ["discard", l] => some (.discard (nat! l))
+  | ["dloan", l] => some (.dloan (nat! l))
+  | ["hget", r, k, g, ty] => some (.hget (nat! r) (nat! k) (nat! g) (tyTag ty))
+  | ["dhget", g] => some (.dhget (nat! g))
+  | ["get", g] => some (.get (nat! g))
+  | ["fresh", g] => some (.fresh (nat! g))
+  | ["dsvc"] => some .dsvc
+  | ["count"] => some .count
+  | _ => none
+
+def showErr : Err → String
+  | .ExceedsMaxSupportedWriters => "ExceedsMaxSupportedWriters"
+  | .ExceedsMaxSupportedReaders => "ExceedsMaxSupportedReaders"
+  | .EntryDoesNotExist => "EntryDoesNotExist"
+  | .HandleAlreadyExists => "HandleAlreadyExists"
+
+def showOut : Out → String
+  | .ok => "ok"
+  | .err e => "err:" ++ showErr e
+  | .dup => "dup"
+  | .none => "none"
+  | .moved => "moved"
+  | .noService => "no-service"
+  | .unwritten => "unwritten"
+  | .noval => "noval"
+  | .val v => toString v
+  | .bool b => if b then "true" else "false"
+  | .count w r => "w=" ++ toString w ++ ",r=" ++ toString r
+
+def stepLine (w : Option World) (t : List String) : Option World × String :=
+  match t with
+  | "new" :: _variant :: mr :: tys =>
+      -- `Creator::create` without entries is refused
+      if tys.isEmpty then (none, "err:service:NoEntriesProvided")
+      else (some (World.init (nat! mr) (tys.map tyTag)), "ok")
+  | _ =>
+    match w with
+    | none => (none, "no-world")
+    | some w =>
+      match parse t with
+      | none => (some w, "bad-op")
+      | some op => let (w', out) := step w op; (some w', showOut out)
+
+def comp : Comp := { σ := Option World, init := none, step := stepLine }
 end Driver.BlackboardD
